@@ -35,6 +35,9 @@ func checkC04(w *World, r *Report) {
 	o := newOwn(w)
 	o.analyseAll()
 	checkOwnWrites(w, r, o, "C04.7")
+	// a transaction reads its own writes: every reader of a transaction looks in the transaction's root (rule C01.1 part)
+	ru8 := r.Rule("C04.8", "read your own writes: lookups issued through a transaction (Has, Route, Reverse, Lookup, its iterators) read the transaction's own root, iterators their snapshot root, router methods the tree they loaded", 5)
+	lookupRootObligations(w, ru8)
 }
 
 // ---- C04.1 ------------------------------------------------------------------------------------------------
